@@ -104,13 +104,18 @@ class C08(Prop):
                              "stroke": rng.choice(["red", "none", None]), "sw": rng.choice([None, 2.0, 5.0])})
             yield {"k": "group", "kids": kids, "nest": rng.random() < 0.5, "transformed": rng.random() < 0.7,
                    "with_stroke": rng.random() < 0.5}
+        # containers of parsed documents: svg, g and use (a use holds the instantiated copy of what it references)
+        import docgen as dg
+        for _ in range(max(40, n // 25)):
+            doc = dg.gen_doc(rng, use=True, p_tf=0.4, depth=3, max_elems=14, p_paint=0.5, p_hidden=0.0, p_nss=0.0, units=False)
+            yield {"k": "doctree", "doc": doc}
 
     def tag(self, case):
         if case["k"] == "seg":
             return "seg." + case["seg"]["k"]
         if case["k"] == "shape":
             return ["shape", "stroke=%s,sw=%s" % (case["stroke"], case["sw"])]
-        return "group"
+        return "doctree" if case["k"] == "doctree" else "group"
 
     def nontrivial(self, case, obs):
         return case["k"] != "seg" or case["seg"]["k"] != "L"
@@ -176,6 +181,36 @@ class C08(Prop):
                     g.append(inner)
                 bb = g.bbox(transformed=case["transformed"], with_stroke=case["with_stroke"])
                 return {"bbox": None if bb is None else [float(v) for v in bb], "union": exts}
+            if k == "doctree":
+                import docgen as dg
+                from svgelements import Use, Shape
+                svg = dg.parse_impl(case["doc"], reify=True)
+                rows = []
+
+                def leaves(e):
+                    for c in e:
+                        if isinstance(c, (Group, Use)):
+                            for x in leaves(c):
+                                yield x
+                        elif isinstance(c, Shape):
+                            yield c
+
+                def walk(e, path):
+                    if isinstance(e, (Group, Use)):
+                        for ws in (False, True):
+                            union = None
+                            for sh in leaves(e):
+                                b = sh.bbox(transformed=True, with_stroke=ws)
+                                if b is not None:
+                                    union = list(b) if union is None else [min(union[0], b[0]), min(union[1], b[1]), max(union[2], b[2]), max(union[3], b[3])]
+                            bb = e.bbox(transformed=True, with_stroke=ws)
+                            rows.append({"what": "%s%s.bbox(with_stroke=%s)" % (type(e).__name__, path, ws),
+                                         "bbox": None if bb is None else [float(v) for v in bb], "union": union})
+                        for i, c in enumerate(e):
+                            walk(c, path + "[%d]" % i)
+                if svg is not None:
+                    walk(svg, "")
+                return {"rows": rows}
         except Exception as e:
             import traceback
             return {"exc": exc_name(e), "tb": traceback.format_exc()[-300:]}
@@ -249,6 +284,17 @@ class C08(Prop):
                         from props.c02 import orth_images
                         if not orth_images(case["M"]):
                             fs[-1]["finding"] = "C08-roundshape-bbox"
+                    break
+        elif k == "doctree":
+            for r in obs["rows"]:
+                if r["union"] is None:
+                    if r["bbox"] is not None:
+                        fs.append(Failure(what="%s of a container without rendered shapes is %r" % (r["what"], r["bbox"]), case=case))
+                        break
+                    continue
+                if r["bbox"] is None or max(abs(a - b) for a, b in zip(r["bbox"], r["union"])) > 1e-9 * max(1.0, max(abs(v) for v in r["union"])):
+                    fs.append(Failure(what="%s is not the union of the boxes of the shapes it contains" % r["what"], case=case,
+                                      observed=r["bbox"], expected=r["union"]))
                     break
         elif k == "group":
             if obs["union"] is None:
